@@ -8,6 +8,7 @@ import (
 	"crypto/ed25519"
 	"crypto/elliptic"
 	"crypto/rand"
+	"crypto/sha256"
 	"encoding/base64"
 	"encoding/binary"
 	"fmt"
@@ -30,10 +31,10 @@ type RunSpec struct {
 	ReqUser  string
 	ReqHost  string
 	Via      string
-	NilAttrs bool // the parameters carry no client attributes (struct built directly)
-	Agent    string   // honest nokey otherkey otherdata replay garbage empty fail close
+	NilAttrs bool   // the parameters carry no client attributes (struct built directly)
+	Agent    string // honest nokey otherkey otherdata replay garbage empty fail close
 	// DirEdit is applied to the registered-key directory before the run: file -> key spec, "" = delete.
-	DirEdit  map[string]string
+	DirEdit map[string]string
 	// "panic": a harness handler whose Authenticate panics
 	Handlers []string // real | accept | reject | reject-disabled | reject-invalid | reject-unknown | reject-untyped | reject-panic-typed
 }
@@ -54,6 +55,22 @@ var userKeys = []string{"p256b", "ed25519b", "rsa2048b", "p384a"}
 // registered "keys" of unusual types: security-key types, a certificate line, DSA. The forwarded
 // agent can never prove possession of any of them, so they must never authenticate.
 var oddKeys = []string{"sk-ed25519", "sk-ecdsa", "cert:p256b", "cert:ed25519b", "dsa"}
+
+// skEd25519Blob is the wire form of the registered sk-ssh-ed25519 key (see registeredContent).
+func skEd25519Blob() []byte {
+	pub := vh.SSHPub("ed25519c").(ssh.CryptoPublicKey).CryptoPublicKey().(ed25519.PublicKey)
+	return sshBytes([]byte("sk-ssh-ed25519@openssh.com"), []byte(pub), []byte("ssh:"))
+}
+
+// skEd25519Sign makes the signature a security key holding ed25519c would return.
+func skEd25519Sign(data []byte) *ssh.Signature {
+	app, msg := sha256.Sum256([]byte("ssh:")), sha256.Sum256(data)
+	flags, counter := byte(1), uint32(7)
+	signed := append(append([]byte{}, app[:]...), flags, byte(counter>>24), byte(counter>>16), byte(counter>>8), byte(counter))
+	signed = append(signed, msg[:]...)
+	sig := ed25519.Sign(vh.Key("ed25519c").(ed25519.PrivateKey), signed)
+	return &ssh.Signature{Format: "sk-ssh-ed25519@openssh.com", Blob: sig, Rest: []byte{flags, byte(counter >> 24), byte(counter >> 16), byte(counter >> 8), byte(counter)}}
+}
 
 func sshBytes(parts ...[]byte) []byte {
 	var out []byte
@@ -242,6 +259,12 @@ func exec(c Case) (vh.Outcome, error) {
 		case "honest":
 			if name != "" && held[name] {
 				s, _ := vh.SSHSigner(name).Sign(rand.Reader, data)
+				captured[string(blob)] = ssh.Marshal(s)
+				reply = mk(s)
+			} else if bytes.Equal(blob, skEd25519Blob()) {
+				// the requester's security key answers (a FIDO token signs application digest, flags,
+				// counter and message digest)
+				s := skEd25519Sign(data)
 				captured[string(blob)] = ssh.Marshal(s)
 				reply = mk(s)
 			}
@@ -524,7 +547,7 @@ func orDefault(name string) string {
 	return name
 }
 
-const rule = "histories of 1..4 runs of gensign.Run sharing one registered-key directory (a third of the later runs first replace, break or delete a '<name>.pub' / '<name>' file) and one scripted forwarded agent; in half of the histories every run uses the same regular.Handler object and forwarded connection, otherwise each run builds its own. Per run: login name (incl. names of other users and 'alice.pub'), namespace policy NONS / NSOK, hardware-key flag, client-declared user / host different from the login name, parameters built directly or through NewReqParam, agent behaviour {honest, lacks the key, signs with another key, signs other data, replays a signature captured earlier in the history, garbage, empty signature, failure, closes the connection}, handler list of 1..4 entries with at most one real regular handler among accepting harness handlers and harness handlers rejecting with every kind of error (authentication, disabled, invalid parameters, unknown, panic-typed, untyped) or panicking inside Authenticate; a tenth of the directly built parameter sets carry no client attributes at all. Directory: '<n>.pub' and bare '<n>' files holding any user's key (RSA, ECDSA, Ed25519, and the types nobody can answer for through the forwarded agent: security-key types, a certificate line, DSA), both with different keys, unparsable, absent. Oracle: the harness sees every sign request and reply and decides itself (K.Verify over this run's challenge under the registered key) whether the real handler may authenticate; CA call or add-identity => the selected handler is the first in list order that authenticates, earlier ones asked once, later ones never; none => AllAuthFailed, no Generate, no CA call, no add; a handler that crashes while authenticating never counts as authenticated (error returned, no CA call, no add, no later handler used); a handler authenticates => the run succeeds with exactly one request from that handler; challenges are 64 bytes, only under the registered key, pairwise distinct over the history. Non-trivial: an adversarial agent while the key file exists, or a reject before an accept in a list of >= 2."
+const rule = "histories of 1..4 runs of gensign.Run sharing one registered-key directory (a third of the later runs first replace, break or delete a '<name>.pub' / '<name>' file) and one scripted forwarded agent; in half of the histories every run uses the same regular.Handler object and forwarded connection, otherwise each run builds its own. Per run: login name (incl. names of other users and 'alice.pub'), namespace policy NONS / NSOK, hardware-key flag, client-declared user / host different from the login name, parameters built directly or through NewReqParam, agent behaviour {honest, lacks the key, signs with another key, signs other data, replays a signature captured earlier in the history, garbage, empty signature, failure, closes the connection}, handler list of 1..4 entries with at most one real regular handler among accepting harness handlers and harness handlers rejecting with every kind of error (authentication, disabled, invalid parameters, unknown, panic-typed, untyped) or panicking inside Authenticate; a tenth of the directly built parameter sets carry no client attributes at all. Directory: '<n>.pub' and bare '<n>' files holding any user's key (RSA, ECDSA, Ed25519, and the types nobody can answer for through the forwarded agent: security-key types (the honest agent does answer for the sk-ed25519 one, as a token would), a certificate line, DSA), both with different keys, unparsable, absent. Oracle: the harness sees every sign request and reply and decides itself (K.Verify over this run's challenge under the registered key) whether the real handler may authenticate; CA call or add-identity => the selected handler is the first in list order that authenticates, earlier ones asked once, later ones never; none => AllAuthFailed, no Generate, no CA call, no add; a handler that crashes while authenticating never counts as authenticated (error returned, no CA call, no add, no later handler used); a handler authenticates => the run succeeds with exactly one request from that handler; challenges are 64 bytes, only under the registered key, pairwise distinct over the history. Non-trivial: an adversarial agent while the key file exists, or a reject before an accept in a list of >= 2."
 
 func TestC01Auth(t *testing.T) {
 	vh.Run(t, vh.Spec[Case]{Property: "C01", Name: "TestC01Auth", Rule: rule, Gen: gen, Exec: exec})
